@@ -838,6 +838,13 @@ class DTypeV:
     def __init__(self, code):
         self.code = code
 
+    def getattr_model(self, ex, name):
+        if name == "itemsize":
+            return tm.const({"f8": 8, "f4": 4, "i8": 8, "i4": 4, "i2": 2, "b": 1}[self.code])
+        if name == "kind":
+            return "f" if self.code.startswith("f") else ("i" if self.code.startswith("i") else "b")
+        raise OutOfSubset(f"dtype attribute {name}")
+
 
 def arr_copy(ex, a):
     f = a.cur()
@@ -2087,6 +2094,7 @@ for _mod in ("numpy",):
     _reg(_mod + ".result_type", np_result_type)
     _reg(_mod + ".vectorize", np_vectorize)
     REGISTRY[_mod + ".float64"] = DTypeV("f8")
+    _reg(_mod + ".dtype", lambda ex, d: DTypeV(dtype_code(d)))
     REGISTRY[_mod + ".float32"] = DTypeV("f4")
     REGISTRY[_mod + ".int64"] = DTypeV("i8")
     REGISTRY[_mod + ".int32"] = DTypeV("i4")
